@@ -31,6 +31,8 @@ type Case struct {
 	Kind     string `json:"kind"`               // request kind in focus: chart | prov | index
 	Redirect string `json:"redirect"`           // none | evil | port : answer the request in focus with a 302
 	DepRepo  string `json:"dep_repo,omitempty"` // call path manager-depurl only: repository URL as spelled in the dependency (Chart.yaml)
+	PassB    bool   `json:"pass_b,omitempty"`   // manager-2creds: pass_credentials_all of the second credentialed repository b
+	BFirst   bool   `json:"b_first,omitempty"`  // manager-2creds: b is listed before r in repositories.yaml
 	Seq      []Call `json:"seq,omitempty"`      // call path getter-history only: the calls made on one getter (history.go)
 }
 
@@ -38,6 +40,9 @@ func (c Case) canon() string {
 	s := fmt.Sprintf("%s|%s|%s|%v|%s|%s", c.Path, c.Repo, c.Chart, c.Pass, c.Kind, c.Redirect)
 	if c.DepRepo != "" {
 		s += "|dep=" + c.DepRepo
+	}
+	if c.Path == pMgr2Creds {
+		s += fmt.Sprintf("|passB=%v|bFirst=%v", c.PassB, c.BFirst)
 	}
 	for _, cl := range c.Seq {
 		s += fmt.Sprintf("|%s,%s,%s,%v", cl.Href, cl.Opts, cl.Repo, cl.Pass)
@@ -58,6 +63,7 @@ const (
 	pMgrBuild   = "manager-build"   // Manager.Build from the Chart.lock a previous Update wrote
 	pMgrDecoy   = "manager-2repos"  // Manager.Update with a second, credential-less repository configured first whose index lists the same absolute chart URL
 	pMgrDepURL  = "manager-depurl"  // Manager.Update (with index refresh) where the dependency spells its repository URL differently from repositories.yaml
+	pMgr2Creds  = "manager-2creds"  // Manager.Update with two credentialed repositories (r and b, each with its own pass_credentials_all) whose indexes list the same absolute chart URL
 	decoyName   = "a"
 	repoName    = "r"
 	otherChart  = "other-0.1.0.tgz"
@@ -80,7 +86,7 @@ func isAbsURL(s string) bool { return strings.Contains(s, "://") }
 // applicable: does the chart spelling make sense on this call path.
 func applicable(path, chart string) bool {
 	switch path {
-	case pGetter, pDLFound, pMgrDecoy:
+	case pGetter, pDLFound, pMgrDecoy, pMgr2Creds:
 		return isAbsURL(chart)
 	}
 	return true
@@ -347,7 +353,7 @@ func execCase(c Case) (res Result) {
 		_, err := p.Run("x")
 		return fail(err)
 
-	case pMgrUpdate, pMgrRefresh, pMgrBuild, pMgrDecoy, pMgrDepURL:
+	case pMgrUpdate, pMgrRefresh, pMgrBuild, pMgrDecoy, pMgrDepURL, pMgr2Creds:
 		entries := []*repo.Entry{credEntry(c)}
 		indexes := map[string][]byte{repoName: sc.index}
 		if c.Path == pMgrDecoy {
@@ -358,6 +364,14 @@ func execCase(c Case) (res Result) {
 			decoy := &repo.Entry{Name: decoyName, URL: u.Scheme + "://" + u.Host + "/decoy"}
 			entries = []*repo.Entry{decoy, credEntry(c)}
 			indexes[decoyName] = sc.index
+		}
+		if c.Path == pMgr2Creds {
+			b := &repo.Entry{Name: "b", URL: repoBURL, Username: repoBUser, Password: repoBPass, PassCredentialsAll: c.PassB}
+			entries = []*repo.Entry{credEntry(c), b}
+			if c.BFirst {
+				entries = []*repo.Entry{b, credEntry(c)}
+			}
+			indexes["b"] = sc.index
 		}
 		if err := w.configure(entries, indexes); err != nil {
 			return fail(err)
